@@ -562,20 +562,25 @@ def replay_poisson_layout():
     and zero entries must stay zero."""
     try:
         from ..enginelegs import real_run
-        vals = [3000.0, 7.0, 0.0, 50000.0, 400.0, 90000.0]
         bad = 0
-        for sd in (("grid", 2, 1, 1, 0), ("grid", 3, 1, 1, 1), ("graph", "pair"), ("graph", "triangle")):
-            system = catalogue.build("none", sd)
-            n = 2 * system.space.size()
-            st = vals[:n]
-            system.state = list(st)
-            for opt in ("tauleap", "gillespie"):
-                for seed in range(1, 4):
-                    script = make_script(system, opt, 0.01, policy="on_iteration", isp="Poisson", seed=seed)
-                    data, _ = real_run(script, opt, 0)
-                    x0 = data[:n]
-                    if any((v == 0 and g != 0) or abs(g - v) > 6 * (v ** 0.5) + 1 for v, g in zip(st, x0)):
-                        bad += 1
+        for vals in ([3000.0, 7.0, 0.0, 50000.0, 400.0, 90000.0], [50.0, 0.0, 0.0, 20.0, 20.0, 20.0], [0.0, 30.0, 9.0, 0.0, 0.0, 12.0]):
+            for sd in (("grid", 2, 1, 1, 0), ("grid", 3, 1, 1, 1), ("graph", "pair"), ("graph", "triangle")):
+                system = catalogue.build("none", sd)
+                n = 2 * system.space.size()
+                st = vals[:n]
+                system.state = list(st)
+                runs = []
+                for opt in ("tauleap", "gillespie"):
+                    for seed in range(1, 4):
+                        script = make_script(system, opt, 0.01, policy="on_iteration", isp="Poisson", seed=seed)
+                        data, _ = real_run(script, opt, 0)
+                        x0 = data[:n]
+                        runs.append(x0)
+                        if any((v == 0 and g != 0) or abs(g - v) > 6 * (v ** 0.5) + 1 for v, g in zip(st, x0)):
+                            bad += 1
+                # an entry with a mean of 5 or more that comes out 0 in every one of the 6 runs (chance below e^-30)
+                if any(v >= 5 and all(r[k] == 0 for r in runs) for k, v in enumerate(st)):
+                    bad += 1
         return bad > 0
     except Exception:
         return False
